@@ -56,6 +56,37 @@ func c24Values(c *vh.Ctx) []uint64 {
 	return vals
 }
 
+// c24Dst makes a destination buffer that already holds 1..6 bytes: either with no spare capacity (the encoder has to
+// grow it) or as the front of a larger array filled with junk (the encoder appends in place).
+func c24Dst(c *vh.Ctx) (dst, orig []byte) {
+	n := 1 + c.Rng.Intn(6)
+	buf := make([]byte, n+16)
+	c.Rng.Read(buf)
+	if c.Rng.Intn(4) == 0 {
+		buf[0] = []byte{0x00, 0x3f, 0x40, 0xc0}[c.Rng.Intn(4)] // first bytes whose top bits are all clear / all set
+	}
+	orig = append([]byte{}, buf[:n]...)
+	if c.Rng.Intn(2) == 0 {
+		return buf[:n:n], orig
+	}
+	return buf[:n], orig
+}
+
+// c24Onto checks what the property says about an encoder given a non-empty buffer: the caller's bytes are still there,
+// in the result and in the caller's own slice, and what follows them is the encoding (w bytes decoding to x).
+func c24Onto(c *vh.Ctx, key, fn string, dst, orig, out []byte, x uint64, w int) {
+	in := map[string]any{"fn": fn, "dst": vh.Hex(orig), "x": x, "w": w}
+	if len(out) < len(orig) || !bytes.Equal(out[:len(orig)], orig) || !bytes.Equal(dst, orig) {
+		c.Fail(key, fn+" onto a non-empty buffer changed the bytes that were already in it", in, map[string]any{"out": vh.Hex(out), "dst_after": vh.Hex(dst)}, vh.Hex(orig)+" + encoding")
+		return
+	}
+	enc := out[len(orig):]
+	rv, rn, ok := refRead(enc)
+	if !ok || rv != x || rn != len(enc) || len(enc) != w {
+		c.Fail(key, fn+" onto a non-empty buffer did not append the requested width decoding to x", in, vh.Hex(out), fmt.Sprintf("%s + %d bytes decoding to %d", vh.Hex(orig), w, x))
+	}
+}
+
 func obsCoq(panicked bool, b []byte) string {
 	if panicked {
 		return "OPanic"
@@ -95,20 +126,54 @@ func runC24(c *vh.Ctx) {
 			c.Fail(fmt.Sprintf("append:%d", x), "value >= 2^62 not refused by panic", x, vh.Hex(out), "panic")
 		}
 	}
+	// Append onto a buffer that already holds data
+	for i, x := range vals {
+		if i%2 == 1 && i >= 29 {
+			continue
+		}
+		dst, orig := c24Dst(c)
+		var out []byte
+		p, _ := vh.Recover(func() { out = tls.VerifVarintAppend(dst, x) })
+		c.Case("appendto", fmt.Sprintf("CAppendTo %s %s %s", vh.Bytes(orig), vh.N(x), obsCoq(p, out)),
+			fmt.Sprintf("%x/%d", orig, x), x >= 64, map[string]any{"op": "Append", "dst": vh.Hex(orig), "x": x, "bytes": vh.Hex(out), "panic": p})
+		if x < 1<<62 {
+			if p {
+				c.Fail(fmt.Sprintf("appendto:%d", x), "Append panicked on a value below 2^62", x, "panic", "encoding")
+			} else {
+				c24Onto(c, fmt.Sprintf("appendto:%d", x), "Append", dst, orig, out, x, refMinLen(x))
+			}
+		} else if !p {
+			c.Fail(fmt.Sprintf("appendto:%d", x), "value >= 2^62 not refused by panic", x, vh.Hex(out), "panic")
+		}
+	}
 	// AppendWithLen
 	widths := []int64{0, 1, 2, 3, 4, 5, 7, 8, 9, 16, -1}
 	for i, x := range vals {
-		for _, w := range []int64{1, 2, 4, 8, widths[i%len(widths)]} {
-			var out []byte
-			p, _ := vh.Recover(func() { out = tls.VerifVarintAppendWithLen(nil, x, w) })
+		for wi, w := range []int64{1, 2, 4, 8, widths[i%len(widths)]} {
+			var out, dst, orig []byte
+			if (i+wi)%3 != 0 { // two thirds of the calls append onto a buffer that already holds data
+				dst, orig = c24Dst(c)
+			}
+			p, _ := vh.Recover(func() { out = tls.VerifVarintAppendWithLen(dst, x, w) })
 			wN := uint64(w)
 			if w < 0 {
 				wN = 1 << 63 // any invalid width; model treats all alike
 			}
-			c.Case("withlen", fmt.Sprintf("CWithLen %s %s %s", vh.N(x), vh.N(wN), obsCoq(p, out)),
-				fmt.Sprintf("%d/%d", x, w), !p, map[string]any{"op": "AppendWithLen", "x": x, "w": w, "bytes": vh.Hex(out), "panic": p})
+			if orig == nil {
+				c.Case("withlen", fmt.Sprintf("CWithLen %s %s %s", vh.N(x), vh.N(wN), obsCoq(p, out)),
+					fmt.Sprintf("%d/%d", x, w), !p, map[string]any{"op": "AppendWithLen", "x": x, "w": w, "bytes": vh.Hex(out), "panic": p})
+			} else {
+				c.Case("withlento", fmt.Sprintf("CWithLenTo %s %s %s %s", vh.Bytes(orig), vh.N(x), vh.N(wN), obsCoq(p, out)),
+					fmt.Sprintf("%x/%d/%d", orig, x, w), !p, map[string]any{"op": "AppendWithLen", "dst": vh.Hex(orig), "x": x, "w": w, "bytes": vh.Hex(out), "panic": p})
+			}
 			valid := w == 1 || w == 2 || w == 4 || w == 8
-			if valid && x < 1<<62 && int64(refMinLen(x)) <= w {
+			if valid && x < 1<<62 && int64(refMinLen(x)) <= w && orig != nil {
+				if p {
+					c.Fail(fmt.Sprintf("withlento:%d/%d", x, w), "AppendWithLen panicked on an admissible width", map[string]any{"x": x, "w": w}, "panic", x)
+				} else {
+					c24Onto(c, fmt.Sprintf("withlento:%d/%d", x, w), "AppendWithLen", dst, orig, out, x, int(w))
+				}
+			} else if valid && x < 1<<62 && int64(refMinLen(x)) <= w {
 				rv, rn, ok := refRead(out)
 				if p || !ok || rv != x || rn != len(out) || int64(len(out)) != w {
 					c.Fail(fmt.Sprintf("withlen:%d/%d", x, w), "AppendWithLen does not emit the requested width decoding to x",
@@ -167,8 +232,16 @@ func runC24TP(c *vh.Ctx, idx int) {
 		ref  func() tpRef
 	}
 	var ps []pending
+	var chosen []int
+	var fakeIDs []uint64
 	for j := 0; j < n; j++ {
-		switch k := c.Rng.Intn(18); k {
+		k := c.Rng.Intn(18)
+		if len(chosen) > 0 && c.Rng.Intn(4) == 0 {
+			k = chosen[c.Rng.Intn(len(chosen))] // the same parameter (same id) again, with a value of its own
+			c.Count("marshal_repeated_kind")
+		}
+		chosen = append(chosen, k)
+		switch k {
 		case 0, 1, 2, 3, 4, 5, 6, 7, 8, 9, 10:
 			v := pickVal(c)
 			var tp tls.TransportParameter
@@ -227,6 +300,10 @@ func runC24TP(c *vh.Ctx, idx int) {
 				func() tpRef { return tpRef{g.IdOverride, g.ValueOverride} }})
 		case 16:
 			f := &tls.FakeQUICTransportParameter{Id: pickVal(c), Val: rbytes(c, 70)}
+			if len(fakeIDs) > 0 && c.Rng.Intn(2) == 0 {
+				f.Id = fakeIDs[c.Rng.Intn(len(fakeIDs))]
+			}
+			fakeIDs = append(fakeIDs, f.Id)
 			tps = append(tps, f)
 			ps = append(ps, pending{"fake", func() string { return fmt.Sprintf("TPFake %s %s", vh.N(f.Id), vh.Bytes(f.Val)) }, func() tpRef { return tpRef{f.Id, f.Val} }})
 		case 17:
